@@ -97,3 +97,62 @@ void h_builders33 (void)
     VF_ASSERT (ROW3 (p, m, 0) == p.x * t.x && ROW3 (p, m, 1) == p.y * t.y && ROW3 (p, m, 2) == 1, "3x3 setScale(vec)");
     VF_END ();
 }
+
+/* ---- rotations: cos / sin are uninterpreted; the clauses are polynomial identities in their values ---- */
+typedef struct Matrix22_uint M22;
+#define RC(a) ((U) cxx2c_ring_cos (a))
+#define RS(a) ((U) cxx2c_ring_sin (a))
+static inline M44 id44 (void) { M44 r; memset (&r, 0, sizeof r); r.x[0][0] = r.x[1][1] = r.x[2][2] = r.x[3][3] = 1; return r; }
+/* elementary rotations acting on row vectors: about x: y -> (c, s), z -> (-s, c); about y: z -> (s.., c), x -> (c, -s); about z: x -> (c, s), y -> (-s, c) */
+static inline M44 rotx (U a) { M44 r = id44 (); r.x[1][1] = RC (a); r.x[1][2] = RS (a); r.x[2][1] = -RS (a); r.x[2][2] = RC (a); return r; }
+static inline M44 roty (U a) { M44 r = id44 (); r.x[0][0] = RC (a); r.x[0][2] = -RS (a); r.x[2][0] = RS (a); r.x[2][2] = RC (a); return r; }
+static inline M44 rotz (U a) { M44 r = id44 (); r.x[0][0] = RC (a); r.x[0][1] = RS (a); r.x[1][0] = -RS (a); r.x[1][1] = RC (a); return r; }
+void h_setEuler44 (void)
+{
+    IN_M44 (m, in_m); IN_V3 (r, in_r);
+    F_setEuler44 (&m, &r);
+    M44 rx = rotx (r.x), ry = roty (r.y), rz = rotz (r.z);
+    M44 xy = F_mul44 (&rx, &ry);
+    M44 e = F_mul44 (&xy, &rz);
+    VF_ASSERT (eq44 (m, e), "setEulerAngles(r) is the product Rx(r.x) Ry(r.y) Rz(r.z) of the elementary row-vector rotations");
+    VF_END ();
+}
+void h_rotate44 (void)
+{
+    IN_M44 (m, in_m); IN_V3 (r, in_r);
+    M44 m0 = m; M44 s; memset (&s, 0, sizeof s);
+    F_setEuler44 (&s, &r); F_rotate44 (&m, &r);
+    M44 e = F_mul44 (&s, &m0);
+    VF_ASSERT (eq44 (m, e), "rotate(r) equals setEulerAngles(r) times the current matrix (left multiplication)");
+    VF_END ();
+}
+void h_setRotation33 (void)
+{
+    IN_M33 (m, in_m); VF_IN (U, in_r); VF_IN_ARR (U, in_n, 4);
+    F_setRotation33 (&m, in_r);
+    VF_ASSERT (m.x[0][0] == RC (in_r) && m.x[0][1] == RS (in_r) && m.x[1][0] == -RS (in_r) && m.x[1][1] == RC (in_r) && m.x[0][2] == 0 && m.x[1][2] == 0
+               && m.x[2][0] == 0 && m.x[2][1] == 0 && m.x[2][2] == 1, "3x3 setRotation(r) = [[c,s,0],[-s,c,0],[0,0,1]]");
+    M22 n; n.x[0][0] = in_n[0]; n.x[0][1] = in_n[1]; n.x[1][0] = in_n[2]; n.x[1][1] = in_n[3];
+    F_setRotation22 (&n, in_r);
+    VF_ASSERT (n.x[0][0] == RC (in_r) && n.x[0][1] == RS (in_r) && n.x[1][0] == -RS (in_r) && n.x[1][1] == RC (in_r), "2x2 setRotation(r) = [[c,s],[-s,c]]");
+    VF_END ();
+}
+void h_rotate33 (void)
+{
+    IN_M33 (m, in_m); VF_IN (U, in_r);
+    M33 m0 = m; M33 s; memset (&s, 0, sizeof s);
+    F_setRotation33 (&s, in_r); F_rotate33 (&m, in_r);
+    M33 e = F_mul33 (&m0, &s);
+    VF_ASSERT (eq33 (m, e), "3x3 rotate(r) equals the current matrix times setRotation(r) (right multiplication)");
+    VF_END ();
+}
+void h_rotate22 (void)
+{
+    VF_IN_ARR (U, in_n, 4); VF_IN (U, in_r);
+    M22 n; n.x[0][0] = in_n[0]; n.x[0][1] = in_n[1]; n.x[1][0] = in_n[2]; n.x[1][1] = in_n[3];
+    M22 n0 = n; M22 s; memset (&s, 0, sizeof s);
+    F_setRotation22 (&s, in_r); F_rotate22 (&n, in_r);
+    M22 e = F_mul22 (&n0, &s);
+    VF_ASSERT (n.x[0][0] == e.x[0][0] && n.x[0][1] == e.x[0][1] && n.x[1][0] == e.x[1][0] && n.x[1][1] == e.x[1][1], "2x2 rotate(r) equals the current matrix times setRotation(r)");
+    VF_END ();
+}
